@@ -5,7 +5,7 @@ invariance monitor (swap, negation, left / right multiplication) and triangle
 monitor over triples.  Rotations are built by the harness."""
 import numpy as np
 
-from .. import gens
+from .. import forms, gens
 from ..core import Case, call
 from ..ref import quat as rq
 
@@ -30,6 +30,7 @@ ROUTES = MATRIX + QUAT + [f + "[batch]" for f in BATCH]
 T_REGIONS = ["tiny", "small", "band", "mid", "nearpi", "nearpi_close", "exact_pi", "exact_pi_axis", "right_angle"]
 REGIONS = {"t:" + r: 40 for r in T_REGIONS}
 REGIONS["triple"] = 100
+REGIONS["whole"] = 40
 PROBES = [("ahrs.utils.metrics", f) for f in MATRIX + QUAT] + [("ahrs.common.dcm", "DCM.log")]
 REQUIRED_PROBES = ["metrics." + f for f in MATRIX + QUAT] + ["dcm.DCM.log"]
 RULE = ("pair cases: q1 Haar-random, q2 = q1 * (axis, t) with the relative angle t drawn per region: 1e-4..1e-3, 1e-3..1e-2, 1e-3..2e-2 "
@@ -81,10 +82,38 @@ def generate(rng, tier, shard, nshards):
         else:
             b, c = gens.unit(rng), gens.unit(rng)
         yield Case("triple", "triple", a=a, b=b, c=c)
+    for i in range(gens.budget(60, tier, nshards)):
+        yield Case("whole", "whole", i=int(rng.integers(len(WHOLE_Q))), j=int(rng.integers(len(WHOLE_Q))), rows=int(rng.integers(1, 4)))
+
+
+WHOLE_Q = np.array([[1, 0, 0, 0], [0, 1, 0, 0], [0, 0, 1, 0], [0, 0, 0, 1], [1, 1, 0, 0], [1, -1, 0, 0], [1, 0, 1, 0], [1, 0, 0, -1], [1, 1, 1, 1], [1, -1, 1, -1],
+                    [1, 1, -1, -1], [0, 1, 1, 0], [0, 1, -1, 0], [0, 0, 1, 1], [-1, 1, 1, 1], [2, 0, 0, 0], [0, -3, 0, 0]], float)
+
+
+def check_whole(case, ctx):
+    """Rotations of the cube: whole-number quaternions and their whole-number matrices, also handed over as int arrays / lists."""
+    from ahrs.utils import metrics as M
+    e1, e2, k = WHOLE_Q[int(case.p["i"])], WHOLE_Q[int(case.p["j"])], int(case.p["rows"])
+    R1, R2 = np.round(rq.refR(e1 / np.linalg.norm(e1))), np.round(rq.refR(e2 / np.linalg.norm(e2)))
+    t = float(np.arccos(np.clip((np.trace(R1.T @ R2) - 1.0) / 2.0, -1.0, 1.0)))     # exact: the matrices are whole numbers (angles 0, 90, 120, 180 deg)
+    for name in MATRIX:
+        fn = getattr(M, name)
+        out = call(lambda: float(fn(R1.copy(), R2.copy())))
+        if ctx.returned(out, route=name):
+            ctx.le("equals its closed form in the relative angle", abs(out.value - CLOSED[name](t)), tol_for(name, t), {"t": t, "d": out.value}, route=name)
+        forms.invariant(ctx, name, lambda a, b: fn(a, b), [R1, R2])
+    for name in QUAT:
+        fn = getattr(M, name)
+        forms.invariant(ctx, name, lambda a, b: fn(a, b), [e1, e2])
+    S1, S2 = np.array([R1, R2, R1][:k]), np.array([R2, R2, R1][:k])
+    Q1, Q2 = np.array([e1, e2, e1][:k]), np.array([e2, e2, -e1][:k])
+    for name in BATCH:
+        fn = getattr(M, name)
+        forms.invariant(ctx, name + "[batch]", lambda a, b: fn(a, b), [S1, S2] if name in MATRIX else [Q1, Q2])
 
 
 def nontrivial(case):
-    return case.route == "triple" or case.p["t"] > 0
+    return case.route in ("triple", "whole") or case.p["t"] > 0
 
 
 def check_pair(case, ctx):
@@ -161,4 +190,4 @@ def check_triple(case, ctx):
 
 
 def check(case, ctx):
-    (check_pair if case.route == "pair" else check_triple)(case, ctx)
+    {"pair": check_pair, "triple": check_triple, "whole": check_whole}[case.route](case, ctx)
